@@ -3,6 +3,7 @@ import LA.Model.Util
 import LA.Model.NumFmt
 import LA.Model.Codec
 import LA.Model.Pax
+import LA.Model.Ar
 namespace LA.Codec
 open LA.NumFmt
 
@@ -128,6 +129,8 @@ structure DState where
   rbs : List RB := []
   partialRead : Bool := false
   rbs2 : Option (List RB) := none  -- read-back of the rewritten archive (none: not modelled)
+  ar : Option ArVariant := none     -- the ar writers have their own state machine
+  arSt : ArState := {}
 
 /-- The entry object the reader returned, as a writer sees it when it is handed on unchanged. -/
 def entryOfRB (r : RB) : Entry :=
@@ -155,9 +158,19 @@ def doRewrite (d : DState) (g : Fmt) (bpb : Nat) (bilb : Int) : DState × String
 
 def obsField (obs k : String) : String := (kv (LA.words obs) k).getD "?"
 
+def doCloseAr (d : DState) (abort : Bool) : DState × String :=
+  let cb := if abort then [] else arCloseBytes d.arSt
+  let raw := d.out ++ cb
+  let total := if abort then raw else raw ++ List.replicate (clientPad raw.length d.bpb d.bilb) 0
+  let rr := if total.take 8 = arMagic then arReadArchive abort total else ⟨0, [], .fatal, 0⟩
+  let d' := { d with rbs := rr.entries, isOpen := false, partialRead := abort }
+  (d', s!"c=ok len={total.length} hash={hex64 (LA.fnv1a total)} hex={if total.length ≤ 1536 then LA.toHex total else "+"} fmt={String.ofList (Nat.toDigits 16 rr.fmt)} n={rr.entries.length} end={rr.endSt.str}")
+
 def doClose (d : DState) (abort : Bool) (obs : String) : DState × String :=
   match d.fmt with
-  | none => (d, obs)
+  | none => match d.ar with
+    | none => (d, obs)
+    | some _ => doCloseAr d abort
   | some f =>
     -- write filters are not modelled: with a filter the engine only monitors (the oracle engines
     -- still evaluate the property on what the implementation printed)
@@ -172,6 +185,25 @@ def doClose (d : DState) (abort : Bool) (obs : String) : DState × String :=
         (toString total.length, hex64 (LA.fnv1a total), if total.length ≤ 1536 then LA.toHex total else "+")
       else (obsField obs "len", obsField obs "hash", obsField obs "hex")   -- filter output is not modelled
     (d', s!"c={cst.str} len={len} hash={hash} hex={hex} fmt={String.ofList (Nat.toDigits 16 rr.fmt)} n={rr.entries.length} end={rr.endSt.str}")
+
+/-- The chunks an `ent` line asks for. -/
+def entChunks (ws : List String) : List (List Nat) :=
+  match kv ws "body" with
+  | none => [] | some "-" => []
+  | some b => match b.splitOn ":" with
+    | [sd, ln] =>
+      let sizes := match kv ws "chunks" with
+        | some c => (c.splitOn ",").filterMap String.toNat?
+        | none => []
+      let sparse : List (Nat × Nat) := match kv ws "sparse" with
+        | none => [] | some "-" => []
+        | some l => (l.splitOn ",").filterMap fun it => match it.splitOn ":" with
+          | [o, n] => match o.toNat?, n.toNat? with
+            | some o, some n => some (o, n)
+            | _, _ => none
+          | _ => none
+      mkChunks (sd.toNat?.getD 0) (ln.toNat?.getD 0) sizes sparse
+    | _ => []
 
 def stepLine (d : DState) (op obs : String) : DState × String :=
   match LA.words op with
@@ -198,18 +230,51 @@ def stepLine (d : DState) (op obs : String) : DState × String :=
     match LA.parseHex k, LA.parseHex v with
     | some k, some v => (d, s!"b={LA.toHex (LA.Pax.record k v)}")
     | _, _ => (d, "bad-op")
+  | ["paxbody", h] =>
+    match (if h == "-" then some [] else LA.parseHex h) with
+    | none => (d, "bad-op")
+    | some body =>
+      -- the harness reads from memory: the whole body is buffered
+      match LA.Pax.parseRecords body.length body body.length with
+      | none => (d, "st=warn")          -- "Ignoring malformed pax attributes"
+      | some kvs =>
+        -- SCHILY.xattr.<name> (1..128 bytes) becomes an extended attribute; other keys are unknown to the reader
+        let pfx : List Nat := [83, 67, 72, 73, 76, 89, 46, 120, 97, 116, 116, 114, 46]
+        -- the key is handed on as a C string (`archive_strncpy`): it ends at the first NUL
+        let xs := kvs.filterMap fun kv =>
+          let key := cstr kv.1
+          let name := key.drop 13
+          if key.take 13 = pfx ∧ 1 ≤ name.length ∧ name.length ≤ 128 then some (hexOrDash name ++ ":" ++ hexOrDash kv.2) else none
+        let xs := xs.mergeSort (fun a b => decide (a ≤ b))
+        -- a SCHILY.xattr name of more than 128 bytes is skipped with a warning ("Unable to parse xattr")
+        if kvs.any (fun kv => (cstr kv.1).take 13 == pfx && decide (((cstr kv.1).drop 13).length > 128)) then (d, "st=warn") else
+        (d, s!"st=ok n={xs.length} x={if xs.isEmpty then "-" else String.intercalate "," xs}")
   | "open" :: ws =>
     let name := (kv ws "f").getD ""
     let d' : DState := { fmt := parseFmt name, fmtName := name, isOpen := true,
                          bpb := ((kv ws "bpb").bind String.toNat?).getD 10240,
                          bilb := optInt (kv ws "bilb") (-1),
                          filter := (kv ws "filter").getD "none" }
-    match d'.fmt with
-    | some _ => (d', "o=ok")
-    | none => (d', obs)
+    let d' := { d' with ar := if d'.filter != "none" then none
+                              else if name == "arbsd" then some .bsd else if name == "arsvr4" then some .svr4 else none }
+    match d'.fmt, d'.ar with
+    | none, none => (d', obs)
+    | _, _ => (d', "o=ok")
   | "ent" :: ws =>
     match d.fmt with
-    | none => (d, obs)
+    | none =>
+      match d.ar with
+      | none => (d, obs)
+      | some v =>
+        let e := parseEntry ws
+        let chunks := entChunks ws
+        let nofinish := (kv ws "nofinish").isSome
+        let h := arWriteHeader v d.arSt e
+        if h.1 = .unmodelled then ({ d with ar := none }, obs) else
+        let r := chunks.foldl arDataStep (0, [], h.2.2)
+        let fin := if nofinish then (Status.ok, []) else arFinishEntry r.2.2
+        let d' := { d with arSt := r.2.2, out := d.out ++ h.2.1 ++ r.2.1 ++ fin.2 }
+        (d', s!"h={h.1.str} w={r.1}:ok f={if nofinish then "-" else fin.1.str} len={if d.bpb = 0 then toString d'.out.length else "-"}")
     | some f =>
       let e := parseEntry ws
       let chunks : List (List Nat) := match kv ws "body" with
@@ -258,9 +323,9 @@ def stepLine (d : DState) (op obs : String) : DState × String :=
         | none => (d, "none")
       | none => (d, "bad-op")
   | ["rd", i] =>
-    match d.fmt with
-    | none => (d, obs)
-    | some _ =>
+    match d.fmt, d.ar with
+    | none, none => (d, obs)
+    | _, _ =>
       match i.toNat? with
       | some i =>
         match d.rbs[i]? with
